@@ -5,6 +5,21 @@ import framework as F
 W = 1 << 32
 
 
+def _frame_counts(lines):
+    import collections
+    c = collections.Counter()
+    for x in lines:
+        if x.startswith("SENT 0 "):
+            b = bytes.fromhex(x.split()[2])       # one write may carry several frames
+            k = 0
+            while k + 23 <= len(b) and b[k:k + 5] == b"SUPLA":
+                c[int.from_bytes(b[k + 10:k + 14], "little")] += 1
+                k += 23 + int.from_bytes(b[k + 14:k + 18], "little")
+        elif x.startswith("CALL value "):
+            c["value reports handed to the protocol layer"] += 1     # (whether or not its queue took them: C06)
+    return c
+
+
 class C19(F.Spec):
     pid = "C19"
     lean_module = "SuplaVerif.Props.C19"
@@ -65,6 +80,78 @@ class C19(F.Spec):
                                               b, k, tr[k] if k < len(tr) else None, traces[0][k] if k < len(traces[0]) else None)),
                                 ["boot %d" % b] + ops[1:]))
                     break
+        # frames sent: a shutter that moves for several seconds with the wrap in the middle of the move reports as often as with
+        # the wrap far away.  (Frame contents are not compared: the phase of the 200 ms report window against the boot value is
+        # set by the first report - the stamp starts as 0 - so positions are sampled at instants up to 200 ms apart.)
+        from props.c03 import set_value as _sv
+        import collections
+
+        def frame_counts(lines):
+            return _frame_counts(lines)
+
+        def _unused(lines):
+            c = collections.Counter()
+            for x in lines:
+                if x.startswith("SENT 0 "):
+                    b = bytes.fromhex(x.split()[2])       # one write may carry several frames
+                    k = 0
+                    while k + 23 <= len(b) and b[k:k + 5] == b"SUPLA":
+                        c[int.from_bytes(b[k + 10:k + 14], "little")] += 1
+                        k += 23 + int.from_bytes(b[k + 14:k + 18], "little")
+                elif x.startswith("CALL value "):
+                    c["value reports handed to the protocol layer"] += 1     # (whether or not its queue took them: C06)
+            return c
+        for i in range(6 if tier == "quick" else 40):
+            full = rng.choice([1000, 1500, 2000, 3000])      # fast travel: the reported percentage changes on every 10 ms callback
+            move = full - rng.choice([100, 200])
+            pre = rng.choice([1500, 2000, 2700])
+            dur = ((full // 100) << 16) | (full // 100)      # shutter commands carry the travel times
+            ops = ["board rs1", "motor 0 0 %d %d" % (full, full), "init", "calllog 1", "rstimes 0 %d %d 0 0" % (full, full), "rspos 0 100 0",
+                   "adv %d" % pre, "msg 110 " + _sv(1, 0, dur, bytes([1] + [0] * 7)).hex()] + ["adv 100"] * (move // 100) + \
+                  ["msg 110 " + _sv(1, 0, dur, bytes([0] * 8)).hex(), "adv 1500"]
+            at = rng.randint(pre + 300, pre + move - 100)          # the wrap falls inside the move
+            cs = []
+            for b in (777, W - at * 1000, W - at * 1000 - 70000, W - at * 1000 - 140000):
+                o2 = ["boot %d" % b] + ops
+                rc, lines, err = C.run_lines([exe], "\n".join(o2) + "\n")
+                if rc != 0:
+                    out.append((F.Finding("crash", "rc=%s %s" % (rc, err[-600:])), o2))
+                    break
+                cs.append((b, frame_counts(lines), o2))
+            for b, c, o2 in cs[1:]:
+                for k in set(c) | set(cs[0][1]):
+                    if abs(c[k] - cs[0][1][k]) > 5:
+                        out.append((F.Finding("boot-dependent-frame-count", "a shutter moving across the counter wrap (boot=%d): %d x "
+                                              "%s, %d with boot=777" % (b, c[k], ("frames of call %d" % k) if isinstance(k, int) else k, cs[0][1][k])), o2))
+                        break
+        # action-trigger gestures (click bursts, holds, re-configured triggers) with the wrap inside the gesture
+        from props.c11 import SPEC as C11
+        for i in range(n):
+            case = C11.gen_at(rng, i)
+            ops = case.ops
+            total = sum(int(o.split()[1]) for o in ops if o.startswith("advus ")) + 1000 * sum(int(o.split()[1]) for o in ops if o.startswith("adv "))
+            boots = [777] + [W - rng.randint(1000000, max(total, 1000001)) for _ in range(3)]
+            traces = []
+            for b in boots:
+                o2 = ["boot %d" % b] + ops
+                rc, lines, err = C.run_lines([exe], "\n".join(o2) + "\n")
+                if rc != 0:
+                    out.append((F.Finding("crash", "rc=%s %s" % (rc, err[-600:])), o2))
+                    traces = None
+                    break
+                traces.append([x for x in lines if x.startswith(("GPIO ", "CALL at ", "INCHG ", "CHG CfgMode", "RESTART"))])
+            if not traces:
+                continue
+            for b, tr in zip(boots[1:], traces[1:]):
+                if tr != traces[0]:
+                    k = next((j for j in range(min(len(tr), len(traces[0]))) if tr[j] != traces[0][j]), min(len(tr), len(traces[0])))
+                    out.append((F.Finding("boot-dependent-behaviour",
+                                          "action-trigger gesture: trace with boot=%d differs from boot=777 at event %d: %s vs %s" % (
+                                              b, k, tr[k] if k < len(tr) else None, traces[0][k] if k < len(traces[0]) else None)),
+                                ["boot %d" % b] + ops))
+                    break
+            if out:
+                break
         # button gestures (configuration button holds and toggles, plain buttons) with the wrap inside the gesture
         from props.c12 import SPEC as C12
         ev = 3 * n
@@ -103,15 +190,22 @@ class C19(F.Spec):
         """a replayed scenario is compared with the same scenario at boot value 777"""
         exe = C.build_driver("drv_dev", "cfg")
         tr = []
+        cnt = []
         for o2 in (ops, ["boot 777"] + [o for o in ops if not o.startswith("boot ")]):
             rc, lines, err = C.run_lines([exe], "\n".join(o2) + "\n")
             if rc != 0:
                 return [F.Finding("crash", "rc=%s %s" % (rc, err[-600:]))]
-            tr.append([x for x in lines if x.startswith(("GPIO ", "TRIGFIRE ", "SETRELAY ", "CHG CfgMode", "FACTORYHOOK", "RESTART", "CHG RelayState"))])
+            cnt.append(_frame_counts(lines))
+            tr.append([x for x in lines if x.startswith(("GPIO ", "TRIGFIRE ", "SETRELAY ", "CHG CfgMode", "FACTORYHOOK", "RESTART", "CHG RelayState",
+                                                         "CALL at ", "INCHG "))])
         if tr[0] != tr[1]:
             k = next((j for j in range(min(len(tr[0]), len(tr[1]))) if tr[0][j] != tr[1][j]), min(len(tr[0]), len(tr[1])))
             return [F.Finding("boot-dependent-behaviour", "trace differs from the one at boot=777 at event %d: %s vs %s" % (
                 k, tr[0][k] if k < len(tr[0]) else None, tr[1][k] if k < len(tr[1]) else None))]
+        if "calllog 1" in ops:
+            for k in set(cnt[0]) | set(cnt[1]):
+                if abs(cnt[0][k] - cnt[1][k]) > 5:
+                    return [F.Finding("boot-dependent-frame-count", "%d x %s, %d with boot=777" % (cnt[0][k], k, cnt[1][k]))]
         return []
 
     def monitor(self, case, groups, rc, err):
